@@ -88,3 +88,26 @@ Theorem C08_same_bytes_string_enc : forall (r r1 : reader) (s : bytes),
   (exists r1'', skip_string true r = (r1'', MOk tt) /\ same_rest r1 r1'').
 Proof. exact lstr_same. Qed.
 Print Assumptions C08_same_bytes_string_enc.
+
+(* C08_same_bytes: the raw-text and the skipping receiver, in EVERY stream state (no key,
+   encrypting, keyed but not encrypting - secret markers followed by sealed frames, frames
+   in any mixture of modes), for ANY bytes in ANY framing, honest or not: whenever
+   GetClassAdRaw succeeds, SkipClassAdRaw succeeds too and ends with the same bytes unread
+   (same buffer, same frames and frame modes still to come, same end-of-message/finished
+   flags, same stream crypto flags).  Together with C08_same_bytes_get_raw (parsing vs raw)
+   the three receivers consume exactly the same bytes. *)
+Theorem C08_same_bytes : forall (t : treader) (x : received) (t1 : treader),
+  get_ad_raw t = (t1, MOk x) -> exists t1', skip_ad t = (t1', MOk tt) /\ tsame t1 t1'.
+Proof. exact all_same_bytes. Qed.
+Print Assumptions C08_same_bytes.
+
+(* the hypothesis is satisfiable on a realistic ad: a keyed, non-encrypting stream carrying a
+   secret marker and a sealed frame, produced by the model sender *)
+Example C08_same_bytes_nonvacuous :
+  let c := {| Privacy.c_opts := 32; Privacy.c_whitelist := []; Privacy.c_enc_attrs := []; Privacy.c_peer := None |} in
+  let a := {| ad_attrs := [([x4e], [x31]); ([x43; x6c; x61; x69; x6d; x49; x64], [x22; x73; x22])];
+              ad_mytype := [x4d]; ad_targettype := [] |} in
+  let t := treader_of true false (s_frames (s_finish (put_ad c (sstate_init true false) a))) in
+  exists x t1, get_ad_raw t = (t1, MOk x) /\ fst (fst x) = [[x4e; x20; x3d; x20; x31]; [x43; x6c; x61; x69; x6d; x49; x64; x20; x3d; x20; x22; x73; x22]]
+               /\ existsb fst (s_frames (s_finish (put_ad c (sstate_init true false) a))) = true.
+Proof. cbv zeta. eexists. eexists. vm_compute. repeat split. Qed.
